@@ -34,6 +34,10 @@ BM_EDGES = [
 ]
 TOL = 1e-7
 SPECIAL = "(){};"
+# the order in which blockMesh reads the twelve numbers of edgeGrading (x-, y-, z-edges), by corner pair
+BM_GRADING_ORDER = [(0, 1), (3, 2), (7, 6), (4, 5), (0, 3), (1, 2), (5, 6), (4, 7), (0, 4), (1, 5), (2, 6), (3, 7)]
+# the twelve wires in a neutral order (sorted corner pairs), as they are handed to the model
+WIRE_KEYS = sorted(tuple(sorted(p)) for p in BM_GRADING_ORDER)
 
 
 # --------------------------------------------------------------------------- trusted tokenizer (file text -> tokens)
@@ -178,8 +182,8 @@ def gen_program(rng: random.Random, tier: str = "quick") -> dict:
         ents.append(e)
     if kind in ("shapes", "mixed"):
         for s in range(rng.randint(1, 2)):
-            what = rng.choice(["cylinder", "ring", "hemisphere", "hemisphere_copy", "hemisphere_pair", "hemisphere_moved", "frustum", "boxes"])
-            e = {"t": what, "at": [4.0 * (s + 1), 0.0, 0.0], "calls": []}
+            what = rng.choice(["cylinder", "ring", "hemisphere", "hemisphere_copy", "hemisphere_pair", "hemisphere_moved", "frustum", "boxes", "taper", "taper", "assembly"])
+            e = {"t": what, "at": [4.0 * (s + 1), 0.0, 0.0], "calls": [], "variant": rng.randrange(8)}
             if rng.random() < 0.6:
                 e["calls"].append(["start", rng.choice(names)])
             if rng.random() < 0.6:
@@ -314,6 +318,21 @@ def build(case: dict):
             first = cb.Hemisphere(at, at + [0, 1, 0], [1, 0, 0])
             ents.append(first)
             obj = first.copy().translate([0, 0, 3.5])
+        elif t == "taper":
+            # a free-standing loft with a trapezoidal top face, graded with a preserved cell size along axis 0 (or 1):
+            # every wire of that axis gets its own expansion, the block is written with edgeGrading
+            b = at + [0.0, 0.0, 6.0]
+            k = e.get("variant", 0)
+            top = [[0, 0, 1], [1, 0, 1], [1.5, 1, 1], [-0.5, 1, 1]] if k % 2 == 0 else [[0, 0, 1], [1.3, -0.2, 1], [1, 1, 1], [0, 1.6, 1]]
+            obj = cb.Loft(cb.Face([list(b + p) for p in ([0, 0, 0], [1, 0, 0], [1, 1, 0], [0, 1, 0])]), cb.Face([list(b + p) for p in top]))
+            obj.cbv_taper = k
+        elif t == "assembly":
+            # an Assembly of built-in shapes, one of which brings a geometry of its own
+            from classy_blocks.construct.assemblies.assembly import Assembly
+
+            cyl = cb.Cylinder(at + [0, 0, 6], at + [1.5, 0, 6], at + [0, 1, 6])
+            hemi = cb.Hemisphere.chain(cyl)
+            obj = Assembly([cyl, hemi])
         else:  # a stack of boxes added as separate operations
             obj = None
             for k in range(2):
@@ -325,7 +344,7 @@ def build(case: dict):
                 obj.set_start_patch(c[1])
             elif c[0] == "outer" and hasattr(obj, "set_outer_patch"):
                 obj.set_outer_patch(c[1])
-            elif c[0] == "zone":
+            elif c[0] == "zone" and hasattr(obj, "set_cell_zone"):
                 obj.set_cell_zone(c[1])
         ents.append(obj)
 
@@ -334,8 +353,12 @@ def build(case: dict):
         mesh.add(obj)
     # chop everything with the same count, so that the gradings are defined whatever the connectivity is
     for op in mesh.operations:
+        k = getattr(op, "cbv_taper", None)
         for axis in range(3):
-            op.chop(axis, count=case["count"])
+            if k is not None and axis == (k // 2) % 2:
+                op.chop(axis, count=4 + k % 3, start_size=0.05 + 0.01 * k, preserve="start_size" if k % 4 < 2 else "end_size")
+            else:
+                op.chop(axis, count=case["count"])
     deleted = []
     for ei, oi in case["delete"]:
         ent = ents[ei % len(ents)]
@@ -416,6 +439,9 @@ def declaration(mesh, case: dict, after_calls_applied: bool) -> Dict[str, Any]:
     for entity in mesh.depot:
         ops = [entity] if isinstance(entity, cb.Loft) else list(entity.operations)
         decl_ops = []
+        shape_labels = sorted(
+            {k for sh in getattr(entity, "shapes", []) if getattr(sh, "geometry", None) for k in sh.geometry}
+        )
         for op in ops:
             pts = [p.position.copy() for p in op.points]
             slots = [(op.bottom_face.edges[i], pts[i], pts[(i + 1) % 4]) for i in range(4)]
@@ -438,7 +464,14 @@ def declaration(mesh, case: dict, after_calls_applied: bool) -> Dict[str, Any]:
                 }
             )
         geo = entity.geometry
-        ents.append({"cls": type(entity).__name__, "ops": decl_ops, "geometry": {} if geo is None else {k: list(v) for k, v in geo.items()}})
+        ents.append(
+            {
+                "cls": type(entity).__name__,
+                "ops": decl_ops,
+                "geometry": {} if geo is None else {k: list(v) for k, v in geo.items()},
+                "shape_labels": shape_labels,  # geometry names of the shapes inside an Assembly
+            }
+        )
     return {"entities": ents}
 
 
@@ -483,11 +516,13 @@ def request_words(decl: dict, case: dict, settings: Dict[str, Any], tails: List[
             w += [w_opt(o["bottom_proj"]), w_opt(o["top_proj"])]
             w += [w_str(o["zone"])]
             if o["deleted"]:
-                tail = [[], "simpleGrading", []]
+                tail = [[], True, {f"{a}-{b}": [] for a, b in WIRE_KEYS}]
             else:
                 tail = tails[k]
                 k += 1
-            w += w_toks(tail[0]) + [w_str(tail[1])] + w_toks(tail[2])
+            w += w_toks(tail[0]) + ["1" if tail[1] else "0"]
+            for a, b in WIRE_KEYS:
+                w += [str(a), str(b)] + w_toks(tail[2][f"{a}-{b}"])
             for ed in o["edges"]:
                 w += ed
             ops.append(w)
@@ -513,7 +548,7 @@ class C06(core.Check):
         "renumbering; 25% of the programs geo-referenced: origin (5e5, 4.2e6, 100), 10 m cells, optionally 0.5 m slits; "
         "renumbering) with set_patch / project_side(edges, points) / project_edge / project_corner / set_cell_zone / "
         "curved edges (arc, collinear arc, origin, spline, polyLine) in random storage slots, and/or built-in shapes "
-        "(Cylinder, Frustum, ExtrudedRing, Hemisphere, a copied Hemisphere, a Hemisphere with a rotated copy, boxes) with "
+        "(Cylinder, Frustum, ExtrudedRing, Hemisphere, a copied Hemisphere, a Hemisphere with a rotated / translated copy, boxes, an Assembly of Cylinder + Hemisphere, tapered lofts graded with a preserved cell size -> edgeGrading) with "
         "start/outer patches and zones; mesh calls merge_patches / set_default_patch / modify_patch (with and without "
         "settings) / add_geometry / settings, 35% of the programs make part of them after an explicit assemble(); 30% "
         "delete one or two operations (also inside shapes); 30% assemble, then clear() or backport() and assemble again "
@@ -522,7 +557,7 @@ class C06(core.Check):
     )
     assumptions = [
         "the tokenizer of the harness (cbv/props/c06.py: tokenize) maps the text of the file to tokens faithfully",
-        "count/grading entries of hex lines, payloads and validity of curved edges, str() of setting values and of "
+        "counts and per-wire grading values of hex lines (their order in the entry is modelled), payloads and validity of curved edges, str() of setting values and of "
         "float64 coordinates in the VTK are opaque tokens taken from the implementation (C01-C04, C07, C08)",
         "points of one program are either identical up to float noise or >= 100 TOL apart (merging itself is C05)",
         "names, labels and zones contain no blanks, brackets, `;` and do not start with `//`",
@@ -585,8 +620,8 @@ class C06(core.Check):
                 shutil.rmtree(tmp, ignore_errors=True)
         tails = []
         for b in mesh.block_list.blocks:
-            g = tokenize(b.format_grading())
-            tails.append([[str(a.count) for a in b.axes], g[0], g[2:-1]])
+            wires = {f"{c1}-{c2}": tokenize(b.wires[c1][c2].grading.description) for c1, c2 in WIRE_KEYS}
+            tails.append([[str(a.count) for a in b.axes], all(a.is_simple for a in b.axes), wires])
         settings = {k: v for k, v in mesh.settings.items()}
         obs = {
             "decl": decl,
@@ -791,8 +826,23 @@ class C06(core.Check):
                 if zone != o["zone"]:
                     bad("Block.description:cell-zone", f"block {k}: file {zone!r}, declared {o['zone']!r}")
                 want_tail = impl["tails"][k] if k < len(impl["tails"]) else None
-                if want_tail is not None and (counts != want_tail[0] or gk != want_tail[1] or grad != nest(want_tail[2])):
-                    bad("Block.description:counts-or-grading", f"block {k}: file {counts} {gk} {grad}, block object {want_tail}")
+                if want_tail is not None:
+                    wires = want_tail[2]
+                    if counts != want_tail[0]:
+                        bad("Block.description:counts", f"block {k}: file {counts}, block object {want_tail[0]}")
+                    if gk == "edgeGrading":
+                        # blockMesh applies the twelve entries to the edges 0-1, 3-2, 7-6, 4-5, 0-3, ... in this order
+                        want = [t for a, b in BM_GRADING_ORDER for t in nest(wires["%d-%d" % tuple(sorted((a, b)))])]
+                        if grad != want:
+                            bad("Block.description:edgeGrading-order", f"block {k}: file {grad}, gradings of the wires in blockMesh's order {want}")
+                    elif gk == "simpleGrading":
+                        want = [t for a, b in ((0, 1), (0, 3), (0, 4)) for t in nest(wires[f"{a}-{b}"])]
+                        if grad != want:
+                            bad("Block.description:simpleGrading", f"block {k}: file {grad}, gradings of the wires 0-1, 0-3, 0-4: {want}")
+                        if not want_tail[1]:
+                            bad("Block.description:simpleGrading-for-different-wires", f"block {k}: {wires}")
+                    else:
+                        bad("Block.description:grading-keyword", f"block {k}: {gk}")
                 for c in range(8):
                     pos = o["corners"][c]["pos"]
                     got = verts[ix[c]]["xyz"]
